@@ -28,12 +28,25 @@ func fullRange(spf int, fams ...int) (int, int) {
 // reproduce), equal to the behaviour the recorded defect predicts (known key), anything else
 // (the generic key).
 func (r *run) witness(key, what string, q qSpec, predicted string) {
+	r.witnessF(false, key, what, q, predicted)
+}
+
+// repaired: the witness of a finding that was repaired by a fix: commit; it must pass now.
+func (r *run) repaired(key, what string, q qSpec, oldAnswer string) {
+	r.witnessF(true, key, what, q, oldAnswer)
+}
+
+func (r *run) witnessF(fixed bool, key, what string, q qSpec, predicted string) {
 	_, line := r.query(q)
 	want := r.nv.query(q).render()
 	switch {
+	case line == want && fixed:
+		r.c.Branch("witness/repaired-passes:" + key)
 	case line == want:
 		r.c.Note("finding " + key + " did not reproduce: leaf answer equals the reference")
 		r.c.Branch("witness/not-reproduced:" + key)
+	case fixed:
+		r.c.Fail("regressed:"+key, fmt.Sprintf("%s — %s: leaf answered %q, reference %q (answer before the fix: %q)", what, q.sql(), line, want, predicted))
 	case line == predicted:
 		r.c.Fail(key, fmt.Sprintf("%s — %s: leaf answered %q, reference %q", what, q.sql(), line, want))
 		r.c.Branch("witness/reproduced:" + key)
@@ -69,18 +82,18 @@ func runFixed(c *core.Ctx, i int) {
 		r.writeRow(0, sA, 5, 0, w1(1, 1), nil, false)
 		r.writeRow(0, sA, 9, 0, w1(1, 2), nil, false)
 		r.writeRow(0, sA, 7, 0, w1(1, 4), nil, false)
-		r.witness("field-writer-end-shrinks", "sum field, slots written in the order 5, 9, 7 inside one write window", q1(1, fnSum), "rs [] f1/a1=5:1,7:4")
+		r.repaired("field-writer-end-shrinks", "sum field, slots written in the order 5, 9, 7 inside one write window", q1(1, fnSum), "rs [] f1/a1=5:1,7:4")
 		r.flush(0)
-		r.witness("field-writer-end-shrinks", "same, after the flush", q1(1, fnSum), "rs [] f1/a1=5:1,7:4")
+		r.repaired("field-writer-end-shrinks", "same, after the flush", q1(1, fnSum), "rs [] f1/a1=5:1,7:4")
 	case 2:
 		// merge() calls Aggregate(newValue, oldValue): for a last field the compacted (older) value
 		// wins at flush, while the memory query (compress first, then buffer) answers the newer one.
 		r.writeRow(0, sA, 5, 0, w1(4, 1), nil, false)
 		r.writeRow(0, sA, 25, 0, w1(4, 2), nil, false)
 		r.writeRow(0, sA, 5, 0, w1(4, 3), nil, false)
-		r.witness("merge-arg-order-last", "(memory, before the flush)", q1(4, fnLast), "")
+		r.repaired("merge-arg-order-last", "(memory, before the flush)", q1(4, fnLast), "")
 		r.flush(0)
-		r.witness("merge-arg-order-last", "last field: slot 5 = 1, window left (slot 25), slot 5 = 3, flush: merge keeps the older 1", q1(4, fnLast), "rs [] f4/a5=5:1,25:2")
+		r.repaired("merge-arg-order-last", "last field: slot 5 = 1, window left (slot 25), slot 5 = 3, flush: merge keeps the older 1", q1(4, fnLast), "rs [] f4/a5=5:1,25:2")
 	case 3:
 		// dataFamily.Filter loads memory result sets before file result sets and the last
 		// aggregate keeps the value loaded last: the flushed (older) point wins.
@@ -100,7 +113,7 @@ func runFixed(c *core.Ctx, i int) {
 		// functions on one field corrupt each other at the leaf reduce (also found by C12 at the root).
 		r.writeRow(0, sB, 7, 0, w1(1, 8), nil, false)
 		q := qSpec{qs: qs, qe: qe, ratio: 1, cond: allCond(), items: []qItem{{1, fnSum}, {1, fnMax}}}
-		r.witness("two-functions-one-field-cross-aggregated", "select sum(fsum),max(fsum): one point 8 is answered as sum 16", q, "rs [] f1/a1=7:16 f1/a4=7:8")
+		r.repaired("two-functions-one-field-cross-aggregated", "select sum(fsum),max(fsum): one point 8 is answered as sum 16", q, "rs [] f1/a1=7:16 f1/a4=7:8")
 	case 6:
 		// memoryDatabase.createdTime is a 5 ms fasttime tick and keys the metric's family time
 		// range: two memory databases created in one tick share it, flushing one clears it.
@@ -118,22 +131,22 @@ func runFixed(c *core.Ctx, i int) {
 		a, b := fullRange(spf, 0, 1)
 		q := qSpec{qs: a, qe: b, ratio: 1, cond: allCond(), items: []qItem{{1, fnSum}}}
 		r.flush(0)
-		r.witness("memdb-created-tick-collision", "families 0 and 1 get memory databases in the same 5 ms tick; after flushing family 0 the points of family 1 are invisible (and are dropped by its own flush)", q,
+		r.repaired("memdb-created-tick-collision", "families 0 and 1 get memory databases in the same 5 ms tick; after flushing family 0 the points of family 1 are invisible (and are dropped by its own flush)", q,
 			"rs [] f1/a1=1:1,5:1,361:1")
 		r.flush(1)
-		r.witness("memdb-created-tick-collision", "same, after flushing family 1: its point is lost", q, "rs [] f1/a1=1:1,5:1,361:1")
+		r.repaired("memdb-created-tick-collision", "same, after flushing family 1: its point is lost", q, "rs [] f1/a1=1:1,5:1,361:1")
 	case 7:
 		// a not-found error of one source makes dataFamily.Filter fail as a whole
 		r.writeRow(0, sA, 5, 0, w1(1, 1), nil, false)
 		r.flush(0)
 		r.writeRow(0, sB, 6, 0, w1(1, 2), nil, false)
 		q := qSpec{qs: qs, qe: qe, ratio: 1, cond: cond{kind: "eq", k: 1, vs: []int{2}}, items: []qItem{{1, fnSum}}}
-		r.witness("family-filter-notfound-drops-memory", "series A flushed, series B (new) in memory: where k1='v2' answers nothing (file filter: series not found)", q, "rs ")
+		r.repaired("family-filter-notfound-drops-memory", "series A flushed, series B (new) in memory: where k1='v2' answers nothing (file filter: series not found)", q, "rs ")
 	case 8:
 		r.writeRow(0, sA, 5, 0, []fieldVal{{1, 1}, {2, 1}}, nil, false)
 		r.flush(0)
 		r.writeRow(0, sA, 6, 0, w1(2, 2), nil, false)
-		r.witness("family-filter-notfound-drops-files", "fsum only in the file, the new memory database holds only fmin: select sum(fsum) answers nothing (memory filter: field not found)", q1(1, fnSum), "rs ")
+		r.repaired("family-filter-notfound-drops-files", "fsum only in the file, the new memory database holds only fmin: select sum(fsum) answers nothing (memory filter: field not found)", q1(1, fnSum), "rs ")
 	case 9:
 		runFlushWindow(r)
 	case 10:
@@ -172,7 +185,7 @@ func runFixed(c *core.Ctx, i int) {
 		r.writeRow(0, sA, 6, 0, w1(2, 25), nil, false) // the second file holds only fmin
 		r.flush(0)
 		q := qSpec{qs: qs, qe: qe, ratio: 1, cond: allCond(), items: []qItem{{2, fnMin}, {3, fnMax}}}
-		r.witness("single-field-file-read-into-first-query-field", "files {fmax}, {fmin}; select min(fmin),max(fmax): the fmax value 1 of the first file is answered as fmin (the selected field with the smallest id)", q, "rs [] f2/a3=5:1,6:25")
+		r.repaired("single-field-file-read-into-first-query-field", "files {fmax}, {fmin}; select min(fmin),max(fmax): the fmax value 1 of the first file is answered as fmin (the selected field with the smallest id)", q, "rs [] f2/a3=5:1,6:25")
 	case 13:
 		// down-sampling with last over a bucket whose slots live in memory and in a file: memory
 		// is loaded first, the file last, so the flushed (older) slot's value is the "last".
@@ -342,16 +355,20 @@ func runMonthCase(c *core.Ctx, rng *rand.Rand, fixed int) {
 		want := strings.TrimSpace("sel " + strings.Join(ws, " "))
 		sameMonth := monthOfDay(rg.qs) == monthOfDay(rg.qe)
 		if sameMonth {
-			c.Branch("month/in-region")
+			c.Branch("month/inside-one-month")
 		} else {
-			c.Branch("month/excluded:crosses-month-boundary")
+			c.Branch("month/crosses-month-boundary")
 		}
 		switch {
 		case line == want:
-		case fixed >= 0 && !sameMonth && line == "sel":
+			if fixed >= 0 && !sameMonth {
+				c.Branch("witness/repaired-passes:month-boundary-family-selection")
+			}
+		case false:
 			c.Fail("month-boundary-family-selection", fmt.Sprintf("5m interval (month-type), families on days %v, query days %d..%d (Jun 25 – Jul 5 2023): GetDataFamilies selects %q, the range holds %q", days, rg.qs, rg.qe, line, want))
 			c.Branch("witness/reproduced:month-boundary-family-selection")
-		case sameMonth || fixed >= 0:
+		default:
+			// (ranges that cross a month boundary are inside the claimed region since fix 8adefd6)
 			c.Fail("family-selection-ne-range", fmt.Sprintf("families %v, query days %d..%d: selected %q, expected %q", days, rg.qs, rg.qe, line, want))
 		}
 	}
